@@ -46,6 +46,14 @@ SHAPES = ['none', 'implementer', 'implementer', 'implementer_only',
           'oldstyle']
 
 
+class _FalsyMeta(type):
+    def __bool__(cls):
+        return False
+
+    def __len__(cls):
+        return 0
+
+
 @st.composite
 def case_strategy(draw):
     nI = draw(st.integers(1, 5))
@@ -63,7 +71,11 @@ def case_strategy(draw):
             'shape': draw(st.sampled_from(SHAPES)),
             'ifaces': draw(ifl), 'ifaces2': draw(ifl),
             'provides': draw(st.one_of(st.none(), ifl)),
-            'also': draw(st.one_of(st.none(), st.none(), ifl))})
+            'also': draw(st.one_of(st.none(), st.none(), ifl)),
+            # a class that is false in a boolean context (its metaclass
+            # defines __bool__ / __len__, as enum-like and registry
+            # metaclasses do); subclasses inherit the metaclass (seed C13i)
+            'falsy': draw(st.integers(0, 5)) == 0})
     funcs = [{'ifaces': draw(ifl)} for _ in range(draw(st.integers(0, 2)))]
     insts = []
     for _ in range(draw(st.integers(0, 4))):
@@ -159,11 +171,24 @@ def _run(case, out, mod, modname, marker, z):
     for c, spec in enumerate(case['classes']):
         name = 'K%d' % c
         body = {'__module__': modname, '__qualname__': name}
+
+        def falsy_meta():
+            # the metaclass lives in the case's own module: a class's
+            # provides-declaration pickles a reference to type(cls)
+            m = getattr(mod, 'FalsyMeta', None)
+            if m is None:
+                m = type('FalsyMeta', (_FalsyMeta,),
+                         {'__module__': modname, '__qualname__': 'FalsyMeta'})
+                setattr(mod, 'FalsyMeta', m)
+            return m
         shape = spec['shape']
         if shape == 'oldstyle':
             body['__implemented__'] = tuple(ii(spec['ifaces']))
         cls, kept = make_class(name, [classes[b] for b in spec['bases']],
-                               body)
+                               body, meta=falsy_meta() if spec.get('falsy')
+                               else None)
+        if not cls:
+            out.tag('falsy_class')
         setattr(mod, name, cls)
         if shape == 'implementer':
             z['implementer'](*ii(spec['ifaces']))(cls)
